@@ -48,6 +48,8 @@ var modes = map[string]*Mode{}
 
 // PropSpec says which driver complaints belong to a property.
 type PropSpec struct {
+	// Extra modes run after the primary one (their findings count for the property too)
+	Extra    []string
 	Mode     string
 	Diffs    []string // DIFF what= prefixes
 	Monitors []string // MONFAIL mon= names
@@ -268,15 +270,18 @@ func progress(format string, a ...any) {
 	progressMu.Unlock()
 }
 
-func runProp(prop, tier string, seed uint64, outPath, replayDir, knownPath string, only int, keepOverride []int) int {
+func runProp(prop, modeName, tier string, seed uint64, outPath, replayDir, knownPath string, only int, keepOverride []int) int {
 	start := time.Now()
 	ps := props[prop]
 	if ps == nil {
 		fmt.Fprintf(os.Stderr, "unknown property %s\n", prop)
 		return 3
 	}
-	mode := modes[ps.Mode]
-	sum := &Summary{Property: prop, Mode: ps.Mode, Tier: tier, Seed: seed, Cov: map[string]int{}}
+	if modeName == "" {
+		modeName = ps.Mode
+	}
+	mode := modes[modeName]
+	sum := &Summary{Property: prop, Mode: modeName, Tier: tier, Seed: seed, Cov: map[string]int{}}
 	known := loadKnown(knownPath)
 
 	type job struct {
@@ -421,7 +426,7 @@ func runProp(prop, tier string, seed uint64, outPath, replayDir, knownPath strin
 					if caseNo < 0 {
 						caseNo = (1 << 20) + (-1 - j.idx)
 					}
-					rp := writeReplay(replayDir, prop, ps.Mode, seed, caseNo, tier, keep, t, v, "")
+					rp := writeReplay(replayDir, prop, modeName, seed, caseNo, tier, keep, t, v, "")
 					fd := &Finding{Case: j.spec.Name, Kind: kind, Lines: lines, Replay: rp, Signature: sig}
 					if _, ok := known[sig]; ok && kind == "monitor" {
 						fd.Known = true
@@ -498,7 +503,7 @@ func runProp(prop, tier string, seed uint64, outPath, replayDir, knownPath strin
 		b, _ := json.MarshalIndent(sum, "", " ")
 		os.WriteFile(outPath, b, 0o644)
 	}
-	fmt.Printf("harness property=%s mode=%s tier=%s seed=%d cases=%d steps=%d findings=%d wall=%.1fs\n", prop, ps.Mode, tier, seed, sum.Cases, sum.Steps, len(sum.Findings), sum.WallS)
+	fmt.Printf("harness property=%s mode=%s tier=%s seed=%d cases=%d steps=%d findings=%d wall=%.1fs\n", prop, modeName, tier, seed, sum.Cases, sum.Steps, len(sum.Findings), sum.WallS)
 	return exit
 }
 
@@ -516,11 +521,63 @@ func caseFor(mode *Mode, seed uint64, idx int, tier string) *CaseSpec {
 // supervise runs the work in a child process, so that a panic inside the code under test
 // (which kills the process) is observed, attributed to a case and reported.
 func supervise(prop, tier string, seed uint64, outPath, replayDir, knownPath string) int {
+	ps := props[prop]
+	if ps == nil {
+		fmt.Fprintf(os.Stderr, "unknown property %s\n", prop)
+		return 2
+	}
+	modesToRun := append([]string{ps.Mode}, ps.Extra...)
+	worst := 0
+	var merged *Summary
+	for i, m := range modesToRun {
+		out := outPath
+		if i > 0 && outPath != "" {
+			out = fmt.Sprintf("%s.%s", outPath, m)
+		}
+		code := superviseMode(prop, m, tier, seed, out, replayDir, knownPath)
+		if code == 1 || (code == 2 && worst == 0) {
+			worst = code
+		}
+		if out != "" {
+			if b, err := os.ReadFile(out); err == nil {
+				var s Summary
+				if json.Unmarshal(b, &s) == nil {
+					if merged == nil {
+						merged = &s
+					} else {
+						merged.Cases += s.Cases
+						merged.Distinct += s.Distinct
+						merged.Steps += s.Steps
+						merged.Lines += s.Lines
+						merged.WallS += s.WallS
+						merged.Findings = append(merged.Findings, s.Findings...)
+						merged.Broken = append(merged.Broken, s.Broken...)
+						merged.Samples = append(merged.Samples, s.Samples...)
+						for k, v := range s.Cov {
+							merged.Cov[k] += v
+						}
+						merged.Mode += "+" + s.Mode
+					}
+				}
+				if i > 0 {
+					os.Remove(out)
+				}
+			}
+		}
+	}
+	if merged != nil && outPath != "" {
+		bb, _ := json.MarshalIndent(merged, "", " ")
+		os.WriteFile(outPath, bb, 0o644)
+	}
+	return worst
+}
+
+func superviseMode(prop, modeName, tier string, seed uint64, outPath, replayDir, knownPath string) int {
 	self, _ := os.Executable()
 	prog, _ := os.CreateTemp("", "verif-progress-*")
 	prog.Close()
 	defer os.Remove(prog.Name())
-	args := []string{"work", "-prop", prop, "-tier", tier, "-seed", fmt.Sprint(seed), "-out", outPath, "-replays", replayDir, "-known", knownPath, "-progress", prog.Name()}
+	args := []string{"work", "-prop", prop, "-mode", modeName, "-tier", tier, "-seed", fmt.Sprint(seed), "-out", outPath, "-replays", replayDir, "-known", knownPath, "-progress", prog.Name()}
 	cmd := exec.Command(self, args...)
 	cmd.Stdout = os.Stdout
 	err := cmd.Run()
@@ -567,7 +624,7 @@ func supervise(prop, tier string, seed uint64, outPath, replayDir, knownPath str
 		if idx < 0 {
 			idx = (1 << 20) + (-1 - idx)
 		}
-		c := exec.Command(self, "work", "-prop", prop, "-tier", tier, "-seed", fmt.Sprint(seed), "-only", fmt.Sprint(idx), "-replays", os.TempDir(), "-known", knownPath)
+		c := exec.Command(self, "work", "-prop", prop, "-mode", modeName, "-tier", tier, "-seed", fmt.Sprint(seed), "-only", fmt.Sprint(idx), "-replays", os.TempDir(), "-known", knownPath)
 		e := c.Run()
 		cc := 0
 		if e != nil {
@@ -578,14 +635,14 @@ func supervise(prop, tier string, seed uint64, outPath, replayDir, knownPath str
 		}
 		if cc != 0 && cc != 1 && cc != 3 {
 			found = filepath.Join(replayDir, fmt.Sprintf("%s-crash-%d-%d.trace", prop, seed, idx))
-			d, _ := exec.Command(self, "dump", "-prop", prop, "-tier", tier, "-seed", fmt.Sprint(seed), "-only", fmt.Sprint(idx)).Output()
-			os.WriteFile(found, append([]byte(fmt.Sprintf("# replay prop=%s mode=%s seed=%d case=%d tier=%s keep=\n# the process running the code under test died (exit %d) while executing this case alone\n", prop, props[prop].Mode, seed, idx, tier, cc)), d...), 0o644)
+			d, _ := exec.Command(self, "dump", "-prop", prop, "-mode", modeName, "-tier", tier, "-seed", fmt.Sprint(seed), "-only", fmt.Sprint(idx)).Output()
+			os.WriteFile(found, append([]byte(fmt.Sprintf("# replay prop=%s mode=%s seed=%d case=%d tier=%s keep=\n# the process running the code under test died (exit %d; a panic, or a data race under the race detector) while executing this case alone\n", prop, modeName, seed, idx, tier, cc)), d...), 0o644)
 			break
 		}
 	}
-	sum := &Summary{Property: prop, Mode: props[prop].Mode, Tier: tier, Seed: seed, Cov: map[string]int{}}
+	sum := &Summary{Property: prop, Mode: modeName, Tier: tier, Seed: seed, Cov: map[string]int{}}
 	if found != "" {
-		fmt.Printf("VIOLATION property=%s replay=%s\n  the implementation crashed (the process died) on this case\n", prop, found)
+		fmt.Printf("VIOLATION property=%s replay=%s\n  the implementation crashed (the process died: panic, or data race under -race) on this case\n", prop, found)
 		sum.Findings = []*Finding{{Case: "crash", Kind: "monitor", Lines: []string{"process died"}, Replay: found, Signature: prop + "/crash"}}
 	} else {
 		found = filepath.Join(replayDir, fmt.Sprintf("%s-crash-%d.txt", prop, seed))
@@ -647,12 +704,13 @@ func main() {
 		known := fs.String("known", "/verif/KNOWN_FINDINGS.txt", "known findings file")
 		only := fs.Int("only", -1, "run one case only")
 		prog := fs.String("progress", "", "progress file")
+		modeFlag := fs.String("mode", "", "mode override")
 		fs.Parse(os.Args[2:])
 		if os.Args[1] == "work" {
 			if *prog != "" {
 				progressFile, _ = os.OpenFile(*prog, os.O_CREATE|os.O_WRONLY|os.O_APPEND, 0o644)
 			}
-			os.Exit(runProp(*prop, *tier, *seed, *out, *rdir, *known, *only, nil))
+			os.Exit(runProp(*prop, *modeFlag, *tier, *seed, *out, *rdir, *known, *only, nil))
 		}
 		os.Exit(supervise(*prop, *tier, *seed, *out, *rdir, *known))
 	case "dump":
@@ -661,12 +719,17 @@ func main() {
 		tier := fs.String("tier", "quick", "quick|thorough")
 		seed := fs.Uint64("seed", 1, "seed")
 		only := fs.Int("only", 0, "case")
+		modeFlag := fs.String("mode", "", "mode override")
 		fs.Parse(os.Args[2:])
 		ps := props[*prop]
 		if ps == nil {
 			os.Exit(2)
 		}
-		c := caseFor(modes[ps.Mode], *seed, *only, *tier)
+		mn := ps.Mode
+		if *modeFlag != "" {
+			mn = *modeFlag
+		}
+		c := caseFor(modes[mn], *seed, *only, *tier)
 		if c != nil && c.Inputs != nil {
 			for _, l := range c.Inputs() {
 				fmt.Println(l)
@@ -695,7 +758,7 @@ func main() {
 				keep = append(keep, x)
 			}
 		}
-		os.Exit(runProp(field(hdr, "prop"), field(hdr, "tier"), seed, "", os.TempDir(), "/verif/KNOWN_FINDINGS.txt", idx, keep))
+		os.Exit(runProp(field(hdr, "prop"), field(hdr, "mode"), field(hdr, "tier"), seed, "", os.TempDir(), "/verif/KNOWN_FINDINGS.txt", idx, keep))
 	default:
 		fmt.Fprintln(os.Stderr, "unknown command")
 		os.Exit(2)
